@@ -5,7 +5,7 @@ sys.path.insert(0, os.path.dirname(os.path.abspath(__file__)))
 MODULES = {
     'C01': ('lincheck', 'C01'), 'C02': ('lincheck', 'C02'), 'C07': ('lincheck', 'C07'),
     'C13': ('lmcheck', 'C13'), 'C05': ('lmcheck', 'C05'), 'C14': ('lmcheck', 'C14'),
-    'C17': ('lpcheck', 'C17'), 'C15': ('c15', 'C15'), 'C20': ('c20', 'C20'), 'C09': ('c09', 'C09'), 'C10': ('c10', 'C10'), 'C03': ('c03', 'C03'), 'C11': ('c11', 'C11'), 'C12': ('c12', 'C12'), 'C16': ('c16', 'C16'),
+    'C17': ('lpcheck', 'C17'), 'C15': ('c15', 'C15'), 'C20': ('c20', 'C20'), 'C09': ('c09', 'C09'), 'C10': ('c10', 'C10'), 'C18': ('c18', 'C18'), 'C03': ('c03', 'C03'), 'C11': ('c11', 'C11'), 'C12': ('c12', 'C12'), 'C16': ('c16', 'C16'),
 }
 
 
